@@ -130,6 +130,54 @@ def input_hash(d):
 
 
 # ------------------------------------------------------------------------------------------------------------------
+# faked clock: what the cache backend sees as "now" (the harness never sleeps)
+# ------------------------------------------------------------------------------------------------------------------
+import time as _real_time  # noqa: E402
+
+CULL_THRESHOLD = 300      # Django's default MAX_ENTRIES (what `MAX_ENTRIES: None` falls back to)
+
+
+class FakeClock:
+    """Stands in for the module-level `time` of django.core.cache.backends.locmem / .base (they call `time.time()`)."""
+
+    def __init__(self):
+        self.offset = 0.0
+
+    def time(self):
+        return _real_time.time() + self.offset
+
+    def monotonic(self):
+        return _real_time.monotonic() + self.offset
+
+    def __getattr__(self, name):
+        return getattr(_real_time, name)
+
+
+CLOCK = FakeClock()
+
+
+def install_clock():
+    import django.core.cache.backends.base as bb
+    import django.core.cache.backends.locmem as lm
+    from django.core.cache.backends.locmem import LocMemCache
+    for m in (lm, bb):
+        if getattr(m, "time", None) is CLOCK:
+            continue
+        if getattr(m, "time", None) is not _real_time:
+            raise C.HarnessError("cannot fake the clock of %s: it does not use the module `time`" % m.__name__)
+        m.time = CLOCK
+    # self-test: an entry with a 10 s lifetime must be gone after the faked clock advanced by 11 s
+    probe = LocMemCache("verif-c19-clock-selftest", {"TIMEOUT": 10})
+    probe.clear()
+    probe.set("k", "v")
+    ok1 = probe.has_key("k")
+    CLOCK.offset += 11
+    ok2 = probe.has_key("k")
+    if not ok1 or ok2:
+        raise C.HarnessError("faked clock has no effect on LocMemCache (%r, %r)" % (ok1, ok2))
+
+
+# ------------------------------------------------------------------------------------------------------------------
 # implementation runner
 # ------------------------------------------------------------------------------------------------------------------
 def media_cache():
@@ -234,6 +282,9 @@ class Runner:
         self.announced = []     # every raw url announced so far
         self.stats = {"evicted": 0, "announced_after_evict": 0, "ok200": 0, "renders": 0, "same_class_rerendered_after_evict": 0,
                       "served_after_other_entry_evicted": 0, "split_stale_announced": 0, "split_stale_unserved": 0, "split_stale_document_error": 0}
+        self.stats.update({"ticks": 0, "seconds_advanced": 0, "served_300s_or_more_after_first_cached": 0})
+        self.first_cached_at = {}          # PATH_INFO -> faked time when the entry was first owed since its last eviction
+        self.stored_since_clear = set()    # cache keys the history made the library store since the last clear()
         self.evicted_before = False
         self.survivors = set()             # live urls that outlived the eviction of ANOTHER entry
         self.rendered_classes = set()      # classes rendered so far
@@ -259,7 +310,9 @@ class Runner:
     def note_rendered(self, insts):
         """Instances were rendered (their scripts cached before anything is emitted)."""
         for cls, kind, ih in self.entitlements(insts):
+            self.first_cached_at.setdefault(path_of(cls, kind, ih), CLOCK.offset)
             self.entitled[path_of(cls, kind, ih)] = key_of(cls, kind, ih)
+            self.stored_since_clear.add(key_of(cls, kind, ih))
         for ci, _, _ in insts:
             if ci >= 0:
                 cls = self.pool.classes[ci]
@@ -298,6 +351,8 @@ class Runner:
             self.live.clear()
             self.entitled.clear()
             self.survivors.clear()
+            self.first_cached_at.clear()
+            self.stored_since_clear.clear()
         else:
             keys = set(keys)
             for u, e in list(self.live.items()):
@@ -307,11 +362,22 @@ class Runner:
             for p, k in list(self.entitled.items()):
                 if k in keys:
                     del self.entitled[p]
+                    self.first_cached_at.pop(p, None)
             if removed_something:
                 self.survivors.update(self.live)
         for cls in self.rendered_classes:
             if removed_something and (keys is None or any(k.startswith("__components:%s:" % cls._class_hash) for k in keys)):
                 self.evicted_classes.add(cls)
+
+    def classify(self, trigger, insts=()):
+        """Root-cause class decided on the INPUT: the history made the library store as many distinct scripts as Django's default
+        MAX_ENTRIES without a clear() in between (a size-bounded LocMemCache culls its least recently used third then)."""
+        stored = self.stored_since_clear | set(key_of(*t) for t in self.entitlements(insts))
+        return "c19-media-cache-culled" if len(stored) >= CULL_THRESHOLD else trigger
+
+    def since(self, path_info):
+        t = self.first_cached_at.get(path_info)
+        return "" if t is None else " (%d s of faked time after the script was first cached)" % (CLOCK.offset - t)
 
     def request(self, i, method, path_info, raw=None):
         pool, fails = self.pool, self.fails
@@ -342,10 +408,13 @@ class Runner:
         if method == "GET" and raw is not None and raw in self.live:
             e = self.live[raw]
             if st != 200 or body != e[3] or ctype != CTYPES[e[1]]:
-                fails.append(("c19-announced-url-not-served", "announced URL %r answered %d %r %r, expected 200 %r %r"
-                              % (raw, st, ctype, body[:80], CTYPES[e[1]], e[3][:80]), i))
-            elif raw in self.survivors:
-                self.stats["served_after_other_entry_evicted"] += 1
+                fails.append((self.classify("c19-announced-url-not-served"), "announced URL %r answered %d %r %r, expected 200 %r %r%s"
+                              % (raw, st, ctype, body[:80], CTYPES[e[1]], e[3][:80], self.since(path_info)), i))
+            else:
+                if raw in self.survivors:
+                    self.stats["served_after_other_entry_evicted"] += 1
+                if CLOCK.offset - self.first_cached_at.get(path_info, CLOCK.offset) >= 300:
+                    self.stats["served_300s_or_more_after_first_cached"] += 1
         elif method == "GET" and raw is not None and raw in self.stale and st == 404:
             self.stats["split_stale_unserved"] += 1
             del self.stale[raw]
@@ -375,7 +444,7 @@ class Runner:
                 html = pool.page.render(kwargs={"tpl": tpl}, type=mode)
             except Exception as e:  # noqa
                 if not (mode == "document" and isinstance(e, RuntimeError) and self.expects_wrap_error(insts)):
-                    self.fails.append(("c19-render-raised", "atomic %s render raised %s: %s" % (mode, type(e).__name__, str(e)[:200]), i))
+                    self.fails.append((self.classify("c19-render-raised", insts), "atomic %s render raised %s: %s" % (mode, type(e).__name__, str(e)[:200]), i))
                 out = ("err", type(e).__name__)
             else:
                 js, css = extract_urls(html, mode)
@@ -440,6 +509,12 @@ class Runner:
             out = ("unit",)
         elif kind == "get":
             out = self.request(i, op[1], op[2], op[3] if len(op) > 3 else None)
+        elif kind == "tick":
+            # faked time passes; nothing is released: a URL stays owed whatever time passed since its script was first cached
+            CLOCK.offset += op[1]
+            self.stats["ticks"] += 1
+            self.stats["seconds_advanced"] += op[1]
+            out = ("unit",)
         else:
             raise AssertionError(op)
         self.outs.append(out)
@@ -536,6 +611,10 @@ def out_term(o):
 
 
 def hist_term(pool, ops, outs, keys):
+    # the model has no clock (media_cache_timeout_anchor: entries never expire): tick ops are not part of the model's history
+    keep = [j for j, o in enumerate(ops) if o[0] != "tick"]
+    outs = [outs[j] for j in keep]
+    ops = [ops[j] for j in keep]
     return "(tbl%d, %s, %s, %s)" % (pool.id, clist([op_term(pool, ops, o) for o in ops]),
                                     clist([out_term(o) for o in outs]), clist([cstr(k) for k in keys]))
 
@@ -603,6 +682,9 @@ def known_input_hashes():
     return [input_hash({"v": v}) for v in (1, 2, 3)] + [input_hash({"w": w}) for w in (1, 2, 3)]
 
 
+TICKS = [2, 299, 301, 3600, 86400]     # seconds of faked time (Django's default cache TIMEOUT is 300)
+
+
 def random_history(pool, rng, length):
     n = len(pool.classes)
     ops = []
@@ -614,6 +696,8 @@ def random_history(pool, rng, length):
         r = rng.random()
         if r < 0.30:
             ops.append(("render", rng.choice(["document", "fragment"]), insts(4), rng.choice(list(PAGE_VARIANTS))))
+            if rng.random() < 0.3:
+                ops.append(("tick", rng.choice(TICKS)))
             if rng.random() < 0.8:
                 ops.append(("getlive",))
         elif r < 0.42:
@@ -633,9 +717,13 @@ def random_history(pool, rng, length):
         elif r < 0.78:
             ops.append(("evict", None))      # resolved adaptively below
         elif r < 0.90:
+            if rng.random() < 0.5:
+                ops.append(("tick", rng.choice(TICKS)))
             ops.append(("getlive",))
         else:
             ops.append(("advget",))
+        if rng.random() < 0.15:
+            ops.append(("tick", rng.choice(TICKS)))
     return ops
 
 
@@ -669,7 +757,9 @@ def small_concretise(pool, seq):
               PREFIX + a._class_hash + "." + input_hash({"w": 1}) + ".css", PREFIX + g._class_hash + ".css",
               PREFIX + g._class_hash + "." + input_hash({"w": 1}) + ".css", PREFIX + g._class_hash + ".js"]
     ops, nb = [], 0
-    for o in seq:
+    for n, o in enumerate(seq):
+        if n:
+            ops.append(("tick", 299))      # between any two macro-ops; +2 s before the requests after a render: 301 s straddle
         if o[0] == "deps":
             if nb == 0:
                 return None
@@ -684,7 +774,9 @@ def small_concretise(pool, seq):
             if o[0] == "body":
                 nb += 1
             if o[0] == "render":
-                ops.append(("getlive",))
+                ops += [("tick", 2), ("getlive",)]
+    if len(seq) == 1 and seq[0][0] == "render":
+        ops += [("tick", 86400), ("getlive",)]
     return ops
 
 
@@ -706,6 +798,12 @@ CORPUS = [
                                                 {"name": "Twin", "module": "verif_c19_corpus_m2", "js": "two()", "css": ".two{}", "hooks": False}],
      "ops": [["render", "fragment", [[0, None, None]], "headbody"], ["render", "fragment", [[1, None, None]], "headbody"], ["getlive"],
              ["clear"], ["render", "document", [[1, None, None], [0, None, None]], "headbody"], ["getlive"]]},
+    # seed C19e (default media cache given a 300 s lifetime): a script is stored once and must stay served whatever time passes
+    {"name": "time-passes-render-299s-render-2s-get", "specs": [{"name": "Tm", "module": "verif_c19_corpus", "js": "t()", "css": ".t{}", "hooks": True}],
+     "ops": [["render", "document", [[0, 1, None]], "headbody"], ["tick", 299], ["render", "document", [[0, 1, None]], "headbody"], ["tick", 2], ["getlive"],
+             ["render", "fragment", [[0, None, 1]], "placeholders"], ["tick", 301], ["getlive"], ["tick", 86400], ["getlive"],
+             ["body", [[0, 2, 2]], "single"], ["tick", 299], ["deps", "fragment", [0], False, "headbody"], ["tick", 2], ["getlive"],
+             ["deps", "document", [0], False, "middleware"], ["getlive"]]},
     # a class with CSS only / JS only
     {"name": "css-only-js-only", "specs": [{"name": "OnlyCss", "module": "verif_c19_corpus", "js": None, "css": ".o{}", "hooks": True},
                                            {"name": "OnlyJs", "module": "verif_c19_corpus", "js": "o()", "css": "  ", "hooks": True}],
@@ -789,6 +887,7 @@ def run(tier, seed):
     warnings.simplefilter("ignore")
     import djsetup
     djsetup.setup()
+    install_clock()
     import gen_constants
     import gen_c19  # noqa: F401  (registers the generator)
     try:
@@ -918,8 +1017,11 @@ def run(tier, seed):
         "of_these_fetched_and_answered_404": obs.get("split_stale_unserved", 0),
         "document_mode_refused_with_RuntimeError": obs.get("split_stale_document_error", 0)}
     chk.assumptions = [
-        "media cache = the default LocMemCache (no timeout, no size limit): entries disappear only through delete()/clear(); "
-        "no eviction happens inside a render or between the render and the request (a size-bounded or expiring user-configured cache can evict there)",
+        "media cache = the library's default one (COMPONENTS.cache unset); a user-configured expiring / size-bounded backend is outside the claim. That the "
+        "default one is a LocMemCache whose entries never expire and that is never culled for size is NOT assumed but checked on the code under test: "
+        "harness/gen_c19.py reads backend class, default_timeout, _max_entries, _cull_frequency of the cache object cache.py builds into coq/Gen/C19.v and "
+        "Serve/Proofs.v anchors them (media_cache_class_anchor, media_cache_timeout_anchor: None, media_cache_unbounded_anchor: >= 2^62); the direct oracle "
+        "runs every history under a faked clock (time advances of 2 s .. 1 day between renders, re-renders and requests) and a history storing 300+ scripts in one render",
         "wf_table, first half (hypothesis of every history theorem): component classes have DISTINCT hashes = distinct import paths (module + name); two "
         "classes with the same module and name share a hash and a cache entry and the second is served the first's code - without this hypothesis the main "
         "theorem is false (Props/C19.v Example emitted_url_served_without_distinct_hashes_refuted); the generator only builds classes with distinct import "
@@ -934,8 +1036,8 @@ def run(tier, seed):
     ]
     return chk.finish(
         rule="histories: every sequence up to length %d over a 9-letter alphabet (document/fragment renders, template render, "
-             "render_dependencies in both modes, clear, delete, probe requests) on a fixed 3-class table (js+css, js only, css only), plus %d seeded random histories "
-             "(3-10 macro-ops, 3-7 generated classes per table, always two with the same name in different modules, js/css in {None, empty, blank, padded with ASCII/Unicode whitespace, non-ASCII, "
+             "render_dependencies in both modes, clear, delete, probe requests; 299 s of faked time between any two of them and 2 s before the requests that follow a render) on a fixed 3-class table (js+css, js only, css only), plus %d seeded random histories "
+             "(3-10 macro-ops plus faked-clock advances of 2/299/301/3600/86400 s, 3-7 generated classes per table, always two with the same name in different modules, js/css in {None, empty, blank, padded with ASCII/Unicode whitespace, non-ASCII, "
              "end-tag}, non-ASCII and duplicate class names, input-hash hooks) with adaptive requests: every announced URL (raw, as emitted), other "
              "methods, and adversarial paths from valid/invalid hashes, kinds, input hashes incl. the key separator ':'; routing: all strings up to "
              "length %d over {a . / : js} after the endpoint prefix + adversarial paths; strip: 4-letter exhaustive to length 3 + random. "
@@ -956,6 +1058,7 @@ def replay(path):
     warnings.simplefilter("ignore")
     import djsetup
     djsetup.setup()
+    install_clock()
     use_urlconf()
     r = json.load(open(path))
     case = r.get("case", r)
